@@ -19,7 +19,11 @@ class _Mixin:
 
 
 class D2(_Mixin, DirectedEdge):
-    """a subclass of DirectedEdge (multiple inheritance, mix-in first)"""
+    """a subclass of DirectedEdge (multiple inheritance, mix-in first) whose constructor names its ends differently and
+    hands them on positionally: library code may create an edge of a user class as cls(a, b), not with v1= / v2="""
+
+    def __init__(self, src=None, dst=None, **kw):
+        super().__init__(src, dst, **kw)
 
 
 class U2(UnDirectedEdge):
@@ -60,9 +64,9 @@ _SEQ = itertools.count()
 def _counting(base, name):
     """a subclass of `base` whose instances record their creation order (observing, without a source hook,
     the order in which a builder creates links)"""
-    def __init__(self, *a, **kw):
+    def __init__(self, head=None, tail=None, **kw):       # own parameter names, ends handed on positionally
         object.__setattr__(self, "_verif_seq", next(_SEQ))
-        base.__init__(self, *a, **kw)
+        base.__init__(self, head, tail, **kw)
     return type(name, (base,), {"__init__": __init__})
 
 
